@@ -378,6 +378,19 @@ def _run(ctx, rng, k, cancel_prob, max_polls, local_prob, entry, timeouts, force
             elif opts["rlimit"] > 0 and cnt > opts["rlimit"]:
                 mon["C06"].append(("budget", "poll %d: %s was restarted %d times, the limit asked for is %d "
                                    "(entered through %s)" % (k_, nm_, cnt, opts["rlimit"], entry)))
+        # ... and the other direction: a step with a restart command that the scheduler reports TIMEDOUT
+        # while budget is left (always, under limit 0 = unlimited) and nobody asked to cancel is
+        # resubmitted with its restart script in that very poll
+        if st["cancel_at"] is None and S.WORLD.poll_code == "OK":
+            restarted_now = set(ev[1] for ev in S.WORLD.events if ev[0] in ("submit", "local") and ev[2] == "restart")
+            for nm_, v_ in S.WORLD.poll_reports:
+                if v_ != "TIMEDOUT" or nm_ not in dag.values or not dag.values[nm_].step.run.get("restart"):
+                    continue
+                before_ = rounds.get(nm_, 0) - (1 if nm_ in restarted_now else 0)
+                if nm_ not in restarted_now and (opts["rlimit"] == 0 or before_ < opts["rlimit"]):
+                    mon["C06"].append(("restart-when-allowed", "poll %d: %s was reported TIMEDOUT after %d restart "
+                                       "rounds, the limit asked for is %d (0 = no limit), and it was not restarted "
+                                       "(entered through %s)" % (k_, nm_, before_, opts["rlimit"], entry)))
         for nm_, kind_, path_, tail_ in S.WORLD.foreign_scripts:
             mon["C06" if kind_ == "restart" else "C19"].append(
                 ("own-script", "poll %d: %s was submitted with its %s script %s, which holds another command: %r "
